@@ -327,10 +327,6 @@ Definition cli_run (c : coll) (tok : string) : result (option nat) :=
   end.
 
 (** * Listings ([Program._make_pairs], [Collection.serialized]) *)
-(** A listing row: indentation depth, displayed name, displayed aliases, and
-    the task shown (None for a collection row). *)
-Definition row := (nat * string * list string * option nat)%type.
-
 Fixpoint insert_by {A} (key : A -> string) (x : A) (l : list A) : list A :=
   match l with
   | [] => [x]
